@@ -34,6 +34,51 @@ check('C01', 'model_checking',
       'objects; native lattice models',
       'tlc-data')
 
+check('C02', 'model_checking',
+      'C02_Model.tla: TLC proves the derivation theorems (dict<->BSF '
+      'bijection, sector decoupling, block shapes) on every small lattice '
+      'definition and emits them; each is built as a user-defined '
+      'StabilizerCode subclass.  C02_Data.tla: TLC re-derives every derived '
+      'view (matrix rows, masks, Hx/Hz, conversions, syndromes, sectors) of '
+      'every library object of the C01 domain and of every user-defined '
+      'code from the primitive lattice definition, and compares exports made '
+      'under different hash seeds.',
+      'DESIGN.md 4/C02',
+      'Trusted: TLC, projection in harness/codes.py and harness/c02.py; '
+      'random operators per object are seeded.',
+      'TLA+ spec (CodeObject.tla) model-checked + spec->code generated '
+      'user-defined codes + code->spec validation by TLC',
+      'tlc-data')
+
+check('C04', 'model_checking',
+      'For every library code with n <= 6 (quick) / 8 (thorough) the '
+      'verdicts of in_codespace, logical_errors (single and stacked), '
+      'is_logical_error, is_success and run_once are recorded for all 4^n '
+      'operators and TLC compares them with membership in the stabilizer '
+      'group built as a closure (no rank argument); larger codes by basis '
+      'vectors, generators, logicals and random coset representatives with '
+      'membership by elimination.',
+      'DESIGN.md 4/C04',
+      'Trusted: TLC; run_once driven with scripted error model / null '
+      'decoder.',
+      'TLA+ spec (Pauli.tla StabGroup/Effect) + TLC validation of exhaustive '
+      'recorded verdicts',
+      'tlc-data')
+
+check('C17', 'model_checking',
+      'DistanceSearch.tla makes the minimum-weight search a state machine: '
+      'TLC breadth-first explores every operator of weight < d reachable '
+      'under a complete pruning rule on the exported stabilizers/logicals of '
+      'every (class, size) with d <= 5 (quick) / 6 (thorough); tiny codes are '
+      'also brute-forced over all 4^n operators (C17_Brute.tla); the pruning '
+      'lemma is self-tested on every run by overstating d.',
+      'DESIGN.md 4/C17',
+      'Trusted: TLC; C01 for "zero syndrome and zero effect => stabilizer"; '
+      'nothing claimed beyond the explored sizes.',
+      'TLA+ state-machine search (DistanceSearch.tla) run by TLC on exported '
+      'code data',
+      'tlc-data')
+
 
 def build():
     checks = []
